@@ -73,6 +73,7 @@ func c20Filters() []model.FilterSpec {
 		{Params: []ct.Comp{ct.P, ct.R1}},             // f1 typed with relation
 		{Params: []ct.Comp{ct.P}, Unsafe: true},      // f2 unsafe
 		{Params: []ct.Comp{ct.P}, With: ct.Of(ct.Q)}, // f3 typed, registered in prelude
+		{}, // f4 Filter0 / Query0
 	}
 }
 
@@ -117,7 +118,8 @@ func (t *traceWorld) observe() {
 		})
 		fmt.Fprintf(&sb, "#%d %s %s;", i, entStr(h), out)
 	}
-	for _, spec := range []model.FilterSpec{{}, {Params: []ct.Comp{ct.P}}, {Params: []ct.Comp{ct.R1}, Unsafe: true}} {
+	for _, spec := range []model.FilterSpec{{}, {Params: []ct.Comp{ct.P}}, {Params: []ct.Comp{ct.R1}, Unsafe: true},
+		{Params: []ct.Comp{ct.P}, Exclusive: true}, {Params: []ct.Comp{ct.P, ct.Q}, Exclusive: true, Unsafe: true}} {
 		sp := spec
 		out := tryCall(func() string {
 			var fl api.Filter
@@ -125,6 +127,9 @@ func (t *traceWorld) observe() {
 				fl = api.NewUnsafeFilter(x.Env, sp.Params)
 			} else {
 				fl = api.TypedFilter(x.Env, sp.Params)
+			}
+			if sp.Exclusive {
+				fl.Exclusive()
 			}
 			q := fl.Query(nil)
 			s := strconv.Itoa(q.Count()) + ":"
@@ -302,7 +307,7 @@ func c20Alphabet(t *traceWorld) []model.Op {
 			ops = append(ops, model.Op{K: model.OpSet, Path: model.PathMapN, E: e, Cs: ct.Of(ct.P)})
 		}
 	}
-	ops = append(ops, queryOps(m, []int{0, 1, 2, 3}, nil)...)
+	ops = append(ops, queryOps(m, []int{0, 1, 2, 3, 4}, nil)...)
 	ops = validOnly(m, ops)
 	// misuse family
 	for q := range t.qs {
@@ -327,6 +332,10 @@ func c20Alphabet(t *traceWorld) []model.Op {
 			for _, code := range []int{muUnsafeRelMissing, muMapRelMissing, muMapNGetRelMissing} {
 				ops = append(ops, model.Op{K: model.OpInvalid, Inv: invMisuse, N: code, E: e, Cs: ct.Of(ct.R1)})
 			}
+		}
+		// GetRelation for a non-relation component (missing or present)
+		for _, code := range []int{muUnsafeRelMissing, muMapRelMissing} {
+			ops = append(ops, model.Op{K: model.OpInvalid, Inv: invMisuse, N: code, E: e, Cs: ct.Of(ct.Q)})
 		}
 	}
 	return ops
@@ -544,6 +553,15 @@ func init() {
 					rep.Histories += int64(ares[i].Cases)
 					rep.Transitions += int64(ares[i].Steps)
 					rep.PerConfig = append(rep.PerConfig, fmt.Sprintf("C20 arity sweep in build tags=%q: histories=%d violations=%d", tg, ares[i].Cases, len(ares[i].Violations)))
+					if i > 0 {
+						for k := range ares[0].Digests {
+							if k < len(ares[i].Digests) && ares[i].Digests[k] != ares[0].Digests[k] {
+								rep.Found = append(rep.Found, engine.Found{Scenario: "C20-misuse-arity-" + tg, OpKind: "misuse-arity:" + tg,
+									V: drv.Violation{Kind: "build-diff", Msg: fmt.Sprintf("query misuse script gives different outcomes (panicked/returned) in build %q and the default build:\n    default: %s\n    %s: %s", tg, ares[0].Digests[k], tg, ares[i].Digests[k])}})
+								break
+							}
+						}
+					}
 					for _, v := range ares[i].Violations {
 						v.Msg = fmt.Sprintf("[build %q] typed API disagrees with the ID-based semantics in this build: %s", tg, v.Msg)
 						rep.Found = append(rep.Found, engine.Found{Scenario: "C20-arity-" + tg, V: v, OpKind: "arity:" + tg + ":" + v.Kind})
@@ -566,6 +584,10 @@ func init() {
 					}
 				}
 				sort.Ints(diff)
+				if len(diff) > 3 {
+					rep.PerConfig = append(rep.PerConfig, fmt.Sprintf("C20: build %q differs in %d subtrees; the first 3 are analysed", tags[i], len(diff)))
+					diff = diff[:3]
+				}
 				for _, k := range diff {
 					// locate the first differing history of the subtree
 					a, err1 := RunSub("C20", "", ts, "task", strconv.Itoa(k))
